@@ -112,6 +112,10 @@ class PUnit:
                 res.solver_time += ob.time
                 res.backends[ob.backend] = res.backends.get(ob.backend, 0) + 1
                 fn["kinds"][ob.kind] = fn["kinds"].get(ob.kind, 0) + 1
+                fn["solver_time_s"] = round(fn.get("solver_time_s", 0.0) + ob.time, 3)
+                fn["symbolic_execution_s"] = round(rep.wall, 3)
+                if ob.time > fn.get("slowest_obligation_s", 0.0):
+                    fn["slowest_obligation_s"], fn["slowest_obligation"] = round(ob.time, 3), ob.oid
                 short = ob.oid.split("/", 1)[1]
                 if ob.status == "unsat":
                     res.discharged += 1
